@@ -15,8 +15,13 @@ class LpModel:
         self.constraints = []  # (name | None, LpConstraint)
         self.objective = None
         self.solved = 0
+        self.families = []  # (count term, month symbol, formula, name): constraints added for every month of a loop
 
     def add(self, item, interp):
+        fr = interp.ctx.loop_capture[-1] if interp.ctx.loop_capture else None
+        if fr is not None and id(self) in fr.get("models", ()):
+            fr.setdefault("model_adds", []).append((self, item))
+            return
         name = None
         if isinstance(item, tuple):
             item, name = item[0], (item[1] if len(item) > 1 else None)
@@ -33,6 +38,7 @@ class LpModel:
     def copy(self):
         m = LpModel(self.name, self.sense)
         m.constraints = list(self.constraints)
+        m.families = list(self.families)
         m.objective = self.objective
         return m
 
@@ -77,6 +83,7 @@ def install(I):
         "LpStatus": {1: "Optimal", 0: "Not Solved", -1: "Infeasible", -2: "Unbounded", -3: "Undefined"},
         "constants": NativeModule("pulp.constants", {"LpStatusOptimal": 1}),
     }
+    ns["pulp"] = NativeModule("pulp.pulp", {"LpVariable": ns["LpVariable"]})
     I.native_modules["pulp"] = NativeModule("pulp", ns)
 
     prev = getattr(I, "extra_attr", None)
@@ -90,7 +97,10 @@ def install(I):
             if name == "sense":
                 return obj.sense
             if name == "objective":
-                return obj.objective
+                hook = getattr(I, "lp_objective_hook", None)
+                return hook(obj) if hook is not None else obj.objective
+            if name == "variables":
+                return Native("LpProblem.variables", lambda ctx: [])
             if name == "solve":
                 def solve(ctx, *a, **k):
                     raise Unsupported("LpProblem.solve(): CBC is not modelled")
